@@ -157,18 +157,13 @@ Proof.
   unfold event_of_pb, event_pb, canon_event. cbn. rewrite attrs_roundtrip. cbn.
   now rewrite time_roundtrip, count_roundtrip.
 Qed.
-(** links as the code sends them: everything but the tracestate (F-C13-1) *)
-Lemma link_roundtrip_as_is l : link_guard l = true -> link_of_pb (link_pb l) = Some (erase_link_ts (canon_link l)).
+Lemma link_roundtrip l : link_guard l = true -> link_of_pb (link_pb l) = Some (canon_link l).
 Proof.
-  unfold link_guard. intros H. unfold link_of_pb, link_pb, canon_link, erase_link_ts. cbn.
+  unfold link_guard. intros H. unfold link_of_pb, link_pb, canon_link. cbn.
   rewrite attrs_roundtrip. cbn. now rewrite remote_roundtrip, count_roundtrip.
 Qed.
-Lemma erase_link_ts_id l : ln_tstate l = [] -> erase_link_ts l = l.
-Proof. destruct l; cbn; intros ->; reflexivity. Qed.
 
-Definition lax_F1 : laxity := mkLax false true false false false.
-
-Lemma span_roundtrip_as_is s : span_guard s = true -> span_of_pb (span_pb s) = Some (norm_span lax_F1 (canon_span s)).
+Lemma span_roundtrip s : span_guard s = true -> span_of_pb (span_pb s) = Some (canon_span s).
 Proof.
   unfold span_guard. intros H.
   repeat (apply andb_true_iff in H as [H ?]).
@@ -176,26 +171,11 @@ Proof.
   rewrite kind_roundtrip, status_roundtrip, attrs_roundtrip by assumption.
   rewrite (opt_map_all_map event_of_pb event_pb canon_event)
     by (intros e He; apply event_roundtrip; eapply forallb_forall; eauto).
-  rewrite (opt_map_all_map link_of_pb link_pb (fun l => erase_link_ts (canon_link l)))
-    by (intros l Hl; apply link_roundtrip_as_is; eapply forallb_forall; eauto).
+  rewrite (opt_map_all_map link_of_pb link_pb canon_link)
+    by (intros l Hl; apply link_roundtrip; eapply forallb_forall; eauto).
   rewrite id_roundtrip, remote_roundtrip, !time_roundtrip, !count_roundtrip by assumption.
-  unfold norm_span, canon_span. cbn. now rewrite map_map.
+  reflexivity.
 Qed.
-
-Definition no_link_ts (s : span) : Prop := forall l, In l (sp_links s) -> ln_tstate l = [].
-Lemma norm_span_id s : no_link_ts s -> norm_span lax_F1 (canon_span s) = canon_span s.
-Proof.
-  intros H. unfold norm_span, canon_span. cbn. f_equal.
-  rewrite map_map. apply map_ext_in. intros l Hl. apply erase_link_ts_id. cbn. now apply H.
-Qed.
-Lemma span_roundtrip s : span_guard s = true -> no_link_ts s -> span_of_pb (span_pb s) = Some (canon_span s).
-Proof. intros G H. rewrite span_roundtrip_as_is by assumption. now rewrite norm_span_id. Qed.
-
-Definition ex_span_ts : span :=
-  mkSpan (repeat 1 16) (repeat 2 8) [] (repeat 0 8) false (str "s") 1 10 20 [] []
-         [mkLink (repeat 3 16) (repeat 4 8) (str "a=1") false [] 0] 0 [] 0 0 0.
-Lemma span_roundtrip_refuted : exists s, span_guard s = true /\ span_of_pb (span_pb s) <> Some (canon_span s).
-Proof. exists ex_span_ts. split; [reflexivity | vm_compute; discriminate]. Qed.
 
 (** * Log records *)
 Lemma sev_roundtrip s : ((0 <=? s) && (s <=? 24))%Z = true -> Z.of_N (sev_pb s) = s.
@@ -206,23 +186,23 @@ Proof.
   - apply andb_false_iff in E as [E|E]; apply Z.leb_gt in E; cbn; lia.
 Qed.
 
-Definition lax_F24 : laxity := mkLax false false true true false.
+Definition lax_F4 : laxity := mkLax false true false.
 
-(** a record as the code sends it: no dropped count (F-C13-2), Empty values as "INVALID" (F-C13-4) *)
-Lemma lrec_roundtrip_as_is r : lrec_guard r = true -> lrec_of_pb (lrec_pb r) = norm_lrec lax_F24 r.
+(** a record as the code sends it: Empty values as "INVALID" (F-C13-4) *)
+Lemma lrec_roundtrip_as_is r : lrec_guard r = true -> lrec_of_pb (lrec_pb r) = norm_lrec lax_F4 r.
 Proof.
   unfold lrec_guard. intros H. repeat (apply andb_true_iff in H as [H ?]).
   unfold lrec_of_pb, lrec_pb, norm_lrec. cbn.
-  rewrite !time_roundtrip, sev_roundtrip, !id_roundtrip by assumption.
+  rewrite !time_roundtrip, sev_roundtrip, !id_roundtrip, count_roundtrip by assumption.
   rewrite lval_roundtrip_as_is, lattrs_roundtrip_as_is. reflexivity.
 Qed.
 
 Definition lrec_clean (r : lrec) : Prop :=
-  lr_dropped r = 0%Z /\ has_empty (lr_body r) = false /\ forall kv, In kv (lr_attrs r) -> has_empty (snd kv) = false.
-Lemma norm_lrec_id r : lrec_clean r -> norm_lrec lax_F24 r = r.
+  has_empty (lr_body r) = false /\ forall kv, In kv (lr_attrs r) -> has_empty (snd kv) = false.
+Lemma norm_lrec_id r : lrec_clean r -> norm_lrec lax_F4 r = r.
 Proof.
-  intros (Hd & Hb & Ha). unfold norm_lrec. cbn.
-  destruct r as [t o e sv st body attrs tr sp fl dr]; cbn in *. subst dr. f_equal.
+  intros (Hb & Ha). unfold norm_lrec. cbn.
+  destruct r as [t o e sv st body attrs tr sp fl dr]; cbn in *. f_equal.
   - now apply fill_empty_id.
   - rewrite <- (map_id attrs) at 2. apply map_ext_in. intros [k v] Hin. cbn. f_equal.
     apply fill_empty_id. exact (Ha _ Hin).
@@ -232,10 +212,8 @@ Proof. intros G H. rewrite lrec_roundtrip_as_is by assumption. now apply norm_lr
 
 Definition ex_lrec (body : lval) (dropped : Z) : lrec :=
   mkLrec 10 20 [] 9 (str "INFO") body [(str "k", LInt 1)] (repeat 1 16) (repeat 2 8) 1 dropped.
-Lemma lrec_dropped_refuted : exists r, lrec_guard r = true /\ has_empty (lr_body r) = false /\ lrec_of_pb (lrec_pb r) <> r.
-Proof. exists (ex_lrec (LStr (str "m")) 2). repeat split; try reflexivity. vm_compute. discriminate. Qed.
-Lemma lrec_empty_refuted : exists r, lrec_guard r = true /\ lr_dropped r = 0%Z /\ lrec_of_pb (lrec_pb r) <> r.
-Proof. exists (ex_lrec LEmpty 0). repeat split; try reflexivity. vm_compute. discriminate. Qed.
+Lemma lrec_empty_refuted : exists r, lrec_guard r = true /\ lrec_of_pb (lrec_pb r) <> r.
+Proof. exists (ex_lrec LEmpty 2). split; [reflexivity|]. vm_compute. discriminate. Qed.
 
 (** * Grouping: for every batch *)
 Lemma filter_snoc {A} (p : A -> bool) l x : filter p (l ++ [x]) = filter p l ++ (if p x then [x] else []).
@@ -798,45 +776,38 @@ Proof.
   - intros E. now rewrite E.
 Qed.
 
-Lemma span_same_refl lx s : span_same lx (canon_span s) s = true.
+Lemma span_same_refl s : span_same (canon_span s) s = true.
 Proof. unfold span_same. destruct (span_guard s); [apply eqb_of_refl | reflexivity]. Qed.
 
 Lemma trace_faithful l :
-  (forall x, In x l -> span_guard (it_body x) = true /\ no_link_ts (it_body x)) ->
+  (forall x, In x l -> span_guard (it_body x) = true) ->
   schema_consistent l -> canon_separated l ->
   trace_spec strict l (spans_pb l) = true.
 Proof.
   intros Hg Hc Hs. unfold trace_spec, spans_pb.
   rewrite (decode_model span_pb span_of_pb canon_span l).
-  - apply (model_groups_ok canon_span (span_same strict) (res_same strict) l).
+  - apply (model_groups_ok canon_span span_same (res_same strict) l).
     + intros x Hx. apply span_same_refl.
     + now apply req_strict.
     + apply Hs.
-  - intros x Hx. destruct (Hg x Hx). now apply span_roundtrip.
+  - intros x Hx. now apply span_roundtrip, Hg.
 Qed.
 
-Definition lax_F13 : laxity := mkLax true true false false false.
-Lemma erase_link_ts_idem l : erase_link_ts (erase_link_ts l) = erase_link_ts l.
-Proof. reflexivity. Qed.
-Lemma span_same_as_is s : span_same lax_F13 (norm_span lax_F1 (canon_span s)) s = true.
-Proof.
-  unfold span_same. destruct (span_guard s); [|reflexivity]. apply eqb_of_true.
-  unfold norm_span. cbn [lax_link_ts lax_F13 lax_F1]. cbn. now rewrite map_map.
-Qed.
+Definition lax_F3 : laxity := mkLax true false false.
 
-(** the trace clause as the code stands: everything but link tracestates and the schema URL
-    of resources that share their attributes, for every batch within the range guards *)
+(** the trace clause as the code stands: everything but the schema URL of resources that share
+    their attributes, for every batch within the range guards *)
 Lemma trace_faithful_as_is l :
   (forall x, In x l -> span_guard (it_body x) = true) -> canon_separated l ->
-  trace_spec lax_F13 l (spans_pb l) = true.
+  trace_spec lax_F3 l (spans_pb l) = true.
 Proof.
   intros Hg Hs. unfold trace_spec, spans_pb.
-  rewrite (decode_model span_pb span_of_pb (fun s => norm_span lax_F1 (canon_span s)) l).
-  - apply (model_groups_ok _ (span_same lax_F13) (res_same lax_F13) l).
-    + intros x Hx. apply span_same_as_is.
+  rewrite (decode_model span_pb span_of_pb canon_span l).
+  - apply (model_groups_ok _ span_same (res_same lax_F3) l).
+    + intros x Hx. apply span_same_refl.
     + now apply req_lax.
     + apply Hs.
-  - intros x Hx. now apply span_roundtrip_as_is, Hg.
+  - intros x Hx. now apply span_roundtrip, Hg.
 Qed.
 
 Lemma lrec_same_refl r : lrec_same strict r r = true.
@@ -856,14 +827,14 @@ Proof.
   - intros x Hx. destruct (Hg x Hx). f_equal. now apply lrec_roundtrip.
 Qed.
 
-Definition lax_F234 : laxity := mkLax true false true true false.
+Definition lax_F34 : laxity := mkLax true true false.
 Lemma fill_empty_idem v : fill_empty (fill_empty v) = fill_empty v.
 Proof.
   induction v as [|b|z|x|s|s|l IH|l IH] using lval_ind'; try reflexivity; cbn [fill_empty]; f_equal; rewrite map_map.
   - now apply map_ext_Forall.
   - apply map_ext_Forall. eapply Forall_impl; [|exact IH]. intros [k w] H. cbn in *. now rewrite H.
 Qed.
-Lemma lrec_same_as_is r : lrec_same lax_F234 (norm_lrec lax_F24 r) r = true.
+Lemma lrec_same_as_is r : lrec_same lax_F34 (norm_lrec lax_F4 r) r = true.
 Proof.
   unfold lrec_same. destruct (lrec_guard r); [|reflexivity]. apply eqb_of_true.
   unfold norm_lrec. cbn. f_equal.
@@ -872,11 +843,11 @@ Proof.
 Qed.
 Lemma log_faithful_as_is l :
   (forall x, In x l -> lrec_guard (it_body x) = true) -> canon_separated l ->
-  log_spec lax_F234 l (logs_pb l) = true.
+  log_spec lax_F34 l (logs_pb l) = true.
 Proof.
   intros Hg Hs. unfold log_spec, logs_pb.
-  rewrite (decode_model lrec_pb (fun p => Some (lrec_of_pb p)) (norm_lrec lax_F24) l).
-  - apply (model_groups_ok _ (lrec_same lax_F234) (res_same lax_F234) l).
+  rewrite (decode_model lrec_pb (fun p => Some (lrec_of_pb p)) (norm_lrec lax_F4) l).
+  - apply (model_groups_ok _ (lrec_same lax_F34) (res_same lax_F34) l).
     + intros x Hx. apply lrec_same_as_is.
     + now apply req_lax.
     + apply Hs.
@@ -888,35 +859,25 @@ Definition mk_titem (r : resource) (s : span) : item span := mkItem r (mkScope (
 Definition ex_res (schema : bytes) : resource := mkRes [(str "service.name", AStr (str "a"))] schema.
 Definition ex_span_plain : span :=
   mkSpan (repeat 1 16) (repeat 2 8) [] (repeat 0 8) false (str "s") 1 10 20 [] [] [] 0 [] 0 0 0.
-Lemma trace_link_ts_refuted :
-  exists l, (forall x, In x l -> span_guard (it_body x) = true) /\ trace_spec strict l (spans_pb l) = false.
-Proof.
-  exists [mk_titem (ex_res []) ex_span_ts]. split; [|vm_compute; reflexivity].
-  intros x [<-|[]]. reflexivity.
-Qed.
 Lemma trace_schema_twins_refuted :
-  exists l, (forall x, In x l -> span_guard (it_body x) = true /\ no_link_ts (it_body x)) /\
-            trace_spec strict l (spans_pb l) = false.
+  exists l, (forall x, In x l -> span_guard (it_body x) = true) /\ trace_spec strict l (spans_pb l) = false /\
+            trace_spec lax_F3 l (spans_pb l) = true.
 Proof.
   exists [mk_titem (ex_res (str "urn:1")) ex_span_plain; mk_titem (ex_res (str "urn:2")) ex_span_plain].
-  split; [|vm_compute; reflexivity].
-  intros x [<-|[<-|[]]]; (split; [reflexivity | intros k []]).
+  split; [|split; vm_compute; reflexivity].
+  intros x [<-|[<-|[]]]; reflexivity.
 Qed.
 Definition mk_litem (r : resource) (b : lrec) : item lrec := mkItem r (mkScope (str "lib") [] [] []) b.
 Lemma log_refuted :
   (exists l, (forall x, In x l -> lrec_guard (it_body x) = true) /\ log_spec strict l (logs_pb l) = false /\
-             log_spec (mkLax false false true false false) l (logs_pb l) = true) /\
+             log_spec (mkLax false true false) l (logs_pb l) = true) /\
   (exists l, (forall x, In x l -> lrec_guard (it_body x) = true) /\ log_spec strict l (logs_pb l) = false /\
-             log_spec (mkLax false false false true false) l (logs_pb l) = true) /\
-  (exists l, (forall x, In x l -> lrec_guard (it_body x) = true) /\ log_spec strict l (logs_pb l) = false /\
-             log_spec (mkLax true false false false false) l (logs_pb l) = true).
+             log_spec (mkLax true false false) l (logs_pb l) = true).
 Proof.
-  split; [|split].
-  - exists [mk_litem (ex_res []) (ex_lrec (LStr (str "m")) 2)]. split; [|split; vm_compute; reflexivity].
+  split.
+  - exists [mk_litem (ex_res []) (ex_lrec LEmpty 2)]. split; [|split; vm_compute; reflexivity].
     intros x [<-|[]]. reflexivity.
-  - exists [mk_litem (ex_res []) (ex_lrec LEmpty 0)]. split; [|split; vm_compute; reflexivity].
-    intros x [<-|[]]. reflexivity.
-  - exists [mk_litem (ex_res (str "urn:1")) (ex_lrec (LStr (str "m")) 0); mk_litem (ex_res (str "urn:2")) (ex_lrec (LStr (str "m")) 0)].
+  - exists [mk_litem (ex_res (str "urn:1")) (ex_lrec (LStr (str "m")) 2); mk_litem (ex_res (str "urn:2")) (ex_lrec (LStr (str "m")) 2)].
     split; [|split; vm_compute; reflexivity]. intros x [<-|[<-|[]]]; reflexivity.
 Qed.
 
@@ -947,7 +908,7 @@ Proof.
   unfold hpoint_of_pb, hpoint_pb. cbn. rewrite attrs_roundtrip, exs_roundtrip by assumption.
   rewrite !time_roundtrip, !opt_as_double, as_double_f64 by assumption. reflexivity.
 Qed.
-Definition lax_F5 : laxity := mkLax false false false false true.
+Definition lax_F5 : laxity := mkLax false false true.
 Lemma ep_roundtrip_as_is p : ep_guard p = true -> epoint_of_pb (epoint_pb p) = Some (canon_ep lax_F5 p).
 Proof.
   unfold ep_guard. intros H. repeat (apply andb_true_iff in H as [H ?]).
